@@ -1,3 +1,447 @@
-//! Input generators for C38 (filled in below).
+//! Input generators for C38: ONNX-shaped protobuf messages, field-level mutations, random bytes.
+//! Every input line is `<label>:<hex>`.
+use crate::*;
 use std::io::Write;
-pub fn generate(_seed: u64, _n: usize, _tier: &str, _out: &mut impl Write) {}
+
+// Action codes, as in checks/C38.py: 0 skip(unknown), 1 varint, 2 float(I32), 3 string, 4 bytes,
+// 5 packed/unpacked varints, 6 packed f32, 7 packed f64, 100+t embedded message of type t.
+// A copy of the dispatch tables of rten-onnx/src/onnx.rs used only to *shape* the inputs
+// (the model's table is re-extracted from the source on every run).
+const T_ATTR: usize = 0;
+const T_NODE: usize = 1;
+const T_TENSOR: usize = 2;
+const T_TYPE: usize = 9;
+const T_GRAPH: usize = 11;
+const T_MODEL: usize = 12;
+const SCHEMA: &[&[(u64, u64)]] = &[
+    &[(1, 3), (2, 2), (4, 3), (3, 1), (6, 111), (5, 102), (7, 2), (8, 1), (9, 3), (20, 1)], // 0 AttributeProto
+    &[(1, 3), (2, 3), (3, 3), (4, 3), (5, 100), (7, 3)],                                     // 1 NodeProto
+    &[(1, 1), (2, 1), (4, 6), (5, 5), (7, 5), (10, 7), (8, 3), (9, 4), (13, 104), (14, 1)],   // 2 TensorProto
+    &[(1, 1), (2, 3)],                                                                       // 3 Dimension
+    &[(1, 3), (2, 3)],                                                                       // 4 StringStringEntryProto
+    &[(1, 3), (2, 1)],                                                                       // 5 OperatorSetIdProto
+    &[(1, 103)],                                                                             // 6 TensorShapeProto
+    &[(1, 1), (2, 106)],                                                                     // 7 TypeProtoTensor
+    &[(1, 109)],                                                                             // 8 TypeProtoSequence
+    &[(1, 107), (4, 108)],                                                                   // 9 TypeProto
+    &[(1, 3), (2, 109)],                                                                     // 10 ValueInfoProto
+    &[(1, 101), (5, 102), (11, 110), (12, 110), (13, 110)],                                  // 11 GraphProto
+    &[(1, 1), (7, 111), (8, 105), (2, 3), (3, 3), (14, 104)],                                // 12 ModelProto
+];
+// field-number path from ModelProto to a message of each type
+const PATHS: &[&[u64]] = &[
+    &[7, 1, 5],        // Attribute
+    &[7, 1],           // Node
+    &[7, 5],           // Tensor
+    &[7, 11, 2, 1, 2, 1], // Dimension: graph.input.type.tensor_type.shape.dim
+    &[14],             // StringStringEntry
+    &[8],              // OperatorSetId
+    &[7, 11, 2, 1, 2], // TensorShape
+    &[7, 11, 2, 1],    // TypeProtoTensor
+    &[7, 11, 2, 4],    // TypeProtoSequence
+    &[7, 11, 2],       // TypeProto
+    &[7, 11],          // ValueInfo
+    &[7],              // Graph
+    &[],               // Model
+];
+
+pub const EXTREME: [u64; 16] = [
+    0, 1, 127, 128, (1 << 31) - 1, 1 << 31, (1 << 32) - 1, 1 << 32, 1 << 40,
+    (1 << 63) - 1, 1 << 63, (1 << 63) + 1, u64::MAX - 11, u64::MAX - 10, u64::MAX - 1, u64::MAX,
+];
+
+struct B<'a> {
+    rng: &'a mut SplitMix64,
+    /// probability (per mille) that a length / value is replaced by a lie
+    lie: u64,
+}
+
+impl<'a> B<'a> {
+    fn some_varint(&mut self) -> u64 {
+        match self.rng.below(6) {
+            0 => self.rng.pick(&EXTREME),
+            1 => self.rng.next(),
+            _ => self.rng.below(300),
+        }
+    }
+
+    fn enc_varint(&mut self, v: u64) -> Vec<u8> {
+        if self.rng.below(1000) < self.lie {
+            match self.rng.below(6) {
+                // over-long / non-canonical encodings
+                0 => {
+                    let mut o = vec![0x80u8; 10];
+                    o.push(self.rng.below(3) as u8);
+                    o
+                }
+                1 => vec![0xff; 9 + self.rng.below(3) as usize],
+                2 => {
+                    let mut o = vec![0xff; 9];
+                    o.push(self.rng.pick(&[0u8, 1, 2, 0x7f, 0x80, 0x81]));
+                    o
+                }
+                3 => varint_padded(v, 1 + self.rng.below(10) as usize),
+                4 => varint(self.rng.pick(&EXTREME)),
+                _ => {
+                    let mut o = varint(v);
+                    let n = o.len();
+                    o[n - 1] |= 0x80; // continuation bit with nothing after it (maybe)
+                    o
+                }
+            }
+        } else {
+            varint(v)
+        }
+    }
+
+    fn string(&mut self) -> Vec<u8> {
+        let n = self.rng.below(6) as usize;
+        let mut s: Vec<u8> = (0..n).map(|_| b'a' + self.rng.below(26) as u8).collect();
+        if self.rng.chance(1, 6) {
+            // multi-byte / invalid UTF-8
+            let extra: &[&[u8]] = &[
+                "é".as_bytes(), "€".as_bytes(), "𝄞".as_bytes(), &[0xc0, 0x80], &[0xed, 0xa0, 0x80], &[0xf4, 0x90, 0x80, 0x80],
+                &[0xe0, 0x9f, 0xbf], &[0xf0, 0x8f, 0xbf, 0xbf], &[0xff], &[0xc3], &[0xe2, 0x82], &[0x80], &[0xef, 0xbf, 0xbf],
+                &[0xf4, 0x8f, 0xbf, 0xbf], &[0xc2, 0x7f],
+            ];
+            s.extend_from_slice(self.rng.pick(extra));
+        }
+        s
+    }
+
+    /// a length-delimited field; the declared length may lie
+    fn len_field(&mut self, number: u64, wire: u64, mut payload: Vec<u8>) -> Vec<u8> {
+        let mut declared = payload.len() as u64;
+        if self.rng.below(1000) < self.lie {
+            match self.rng.below(8) {
+                0 => declared += 1,
+                1 => declared = declared.saturating_sub(1),
+                2 => declared += 1 + self.rng.below(200),
+                3 => declared = self.rng.pick(&EXTREME),
+                4 => declared = u64::MAX - self.rng.below(64),
+                5 => declared = (1u64 << 63) - 1 - self.rng.below(4),
+                6 => {
+                    let k = self.rng.below(payload.len() as u64 + 1) as usize;
+                    payload.truncate(k);
+                }
+                _ => declared = self.rng.below(2 * declared + 2),
+            }
+        }
+        let mut o = self.enc_varint((number << 3) | wire);
+        o.extend(self.enc_varint(declared));
+        o.extend(payload);
+        o
+    }
+
+    fn field(&mut self, number: u64, code: u64, depth: usize) -> Vec<u8> {
+        // wire type normally the one the decoder expects; sometimes another
+        let flip = self.rng.below(1000) < self.lie;
+        let mut wire_for = |dflt: u64, rng: &mut SplitMix64| if flip { rng.below(8) } else { dflt };
+        match code {
+            1 => {
+                let w = wire_for(0, self.rng);
+                self.raw_field(number, w, depth)
+            }
+            2 => {
+                let w = wire_for(5, self.rng);
+                self.raw_field(number, w, depth)
+            }
+            3 | 4 => {
+                let w = wire_for(2, self.rng);
+                if w != 2 {
+                    return self.raw_field(number, w, depth);
+                }
+                let s = if code == 3 { self.string() } else { (0..self.rng.below(9)).map(|_| self.rng.next() as u8).collect() };
+                self.len_field(number, 2, s)
+            }
+            5 => {
+                if self.rng.chance(1, 2) {
+                    let w = wire_for(0, self.rng);
+                    self.raw_field(number, w, depth)
+                } else {
+                    let n = self.rng.below(5);
+                    let mut p = vec![];
+                    for _ in 0..n {
+                        let v = self.some_varint();
+                        p.extend(self.enc_varint(v));
+                    }
+                    self.len_field(number, 2, p)
+                }
+            }
+            6 | 7 => {
+                let width = if code == 6 { 4 } else { 8 };
+                if self.rng.chance(1, 2) {
+                    let w = wire_for(if code == 6 { 5 } else { 1 }, self.rng);
+                    self.raw_field(number, w, depth)
+                } else {
+                    let mut n = self.rng.below(4) as usize * width;
+                    if self.rng.below(1000) < self.lie {
+                        n += 1 + self.rng.below(width as u64 - 1) as usize; // not a multiple of the element size
+                    }
+                    let p: Vec<u8> = (0..n).map(|_| self.rng.next() as u8).collect();
+                    self.len_field(number, 2, p)
+                }
+            }
+            c if c >= 100 => {
+                let w = wire_for(2, self.rng);
+                if w != 2 {
+                    return self.raw_field(number, w, depth);
+                }
+                let p = self.message((c - 100) as usize, depth + 1);
+                self.len_field(number, 2, p)
+            }
+            _ => {
+                let w = self.rng.below(if flip { 8 } else { 6 });
+                self.raw_field(number, w, depth)
+            }
+        }
+    }
+
+    /// a field with the given wire type and arbitrary content
+    fn raw_field(&mut self, number: u64, wire: u64, _depth: usize) -> Vec<u8> {
+        match wire {
+            0 => {
+                let mut o = self.enc_varint(number << 3);
+                let v = self.some_varint();
+                o.extend(self.enc_varint(v));
+                o
+            }
+            1 => {
+                let mut o = self.enc_varint((number << 3) | 1);
+                o.extend(self.rng.next().to_le_bytes());
+                o
+            }
+            2 => {
+                let p: Vec<u8> = (0..self.rng.below(7)).map(|_| self.rng.next() as u8).collect();
+                self.len_field(number, 2, p)
+            }
+            5 => {
+                let mut o = self.enc_varint((number << 3) | 5);
+                o.extend((self.rng.next() as u32).to_le_bytes());
+                o
+            }
+            w => self.enc_varint((number << 3) | w),
+        }
+    }
+
+    fn message(&mut self, ty: usize, depth: usize) -> Vec<u8> {
+        let table = SCHEMA[ty];
+        let nf = if depth > 6 { self.rng.below(2) } else { self.rng.below(5) };
+        let mut o = vec![];
+        for _ in 0..nf {
+            if self.rng.chance(1, 6) {
+                // unknown field number
+                let number = self.rng.pick(&[0u64, 15, 16, 21, 100, 1 << 28, (1 << 61) - 1]);
+                o.extend(self.field(number, 0, depth));
+            } else {
+                let (number, code) = self.rng.pick(table);
+                o.extend(self.field(number, code, depth));
+            }
+        }
+        o
+    }
+}
+
+fn wrap_path(path: &[u64], mut inner: Vec<u8>) -> Vec<u8> {
+    for &n in path.iter().rev() {
+        inner = f_len(n, &inner);
+    }
+    inner
+}
+
+/// `cycles` rounds of GraphProto.node -> NodeProto.attribute -> AttributeProto.g, inside ModelProto.graph
+pub fn deep_graph(cycles: usize, tail: &[u8]) -> Vec<u8> {
+    let mut g = tail.to_vec();
+    for _ in 0..cycles {
+        g = f_len(1, &f_len(5, &f_len(6, &g)));
+    }
+    f_len(7, &g)
+}
+
+/// nesting depth `levels` below ModelProto using ValueInfo.type -> TypeProto.sequence -> elem_type cycles
+pub fn deep_type(cycles: usize) -> Vec<u8> {
+    let mut t = vec![];
+    for _ in 0..cycles {
+        t = f_len(4, &f_len(1, &t)); // TypeProto.sequence { elem_type: TypeProto }
+    }
+    wrap_path(&[7, 11, 2], t)
+}
+
+fn emit(out: &mut impl Write, label: &str, bytes: &[u8]) {
+    writeln!(out, "{}:{}", label, hex(bytes)).unwrap();
+}
+
+pub fn small_valid() -> Vec<u8> {
+    // ir_version, producer_name, graph{node{input,op_type,attribute{name,i}}, initializer{dims,data_type,raw_data,
+    // int64_data packed, float_data packed}, input{name,type{tensor{elem_type,shape{dim{dim_value}}}}}}, opset_import{version}
+    let attr = [f_len(1, b"k"), f_varint(3, 7), f_varint(20, 2)].concat();
+    let node = [f_len(1, b"x"), f_len(4, b"Relu"), f_len(5, &attr)].concat();
+    let tensor = [
+        f_varint(1, 2),
+        f_varint(2, 1),
+        f_len(9, &[1, 2, 3, 4, 5, 6, 7, 8]),
+        f_len(7, &[varint(300), varint(1)].concat()),
+        f_len(4, &1.0f32.to_le_bytes()),
+        f_len(8, "w€".as_bytes()),
+    ]
+    .concat();
+    let dim = f_varint(1, 3);
+    let vi = [f_len(1, b"in"), f_len(2, &f_len(1, &[f_varint(1, 1), f_len(2, &f_len(1, &dim))].concat()))].concat();
+    let graph = [f_len(1, &node), f_len(5, &tensor), f_len(11, &vi), f_len(12, &vi)].concat();
+    [f_varint(1, 8), f_len(2, b"vf"), f_len(7, &graph), f_len(8, &f_varint(2, 18)), f_len(14, &[f_len(1, b"a"), f_len(2, b"b")].concat())].concat()
+}
+
+pub fn generate(seed: u64, n: usize, tier: &str, out: &mut impl Write) {
+    let thorough = tier == "thorough";
+    let mut rng = SplitMix64(seed);
+    emit(out, "empty", &[]);
+
+    // ---- 1. deterministic families
+    let base = small_valid();
+    emit(out, "valid", &base);
+    // truncation at every offset
+    for k in 0..base.len() {
+        emit(out, "trunc", &base[..k]);
+    }
+    // every length header of the base message replaced by an extreme (found by scanning for the
+    // headers the writer produced: we rebuild instead -- a top-level unknown/known field with
+    // each extreme length, followed by 0..3 payload bytes)
+    for &number in &[2u64, 7, 8, 15] {
+        for &len in EXTREME.iter().chain([2, 3, 4, 5, 10, 11, 12].iter()) {
+            for tail in 0..4usize {
+                let mut b = f_len_hdr(number, len);
+                b.extend(std::iter::repeat_n(0x61, tail));
+                emit(out, "lenhdr", &b);
+                // the same, nested one level (inside ModelProto.graph with an honest outer length)
+                let mut inner = f_len_hdr(if number == 7 { 1 } else { number }, len);
+                inner.extend(std::iter::repeat_n(0x61, tail));
+                emit(out, "lenhdr-nested", &f_len(7, &inner));
+                // after some leading field, so that position + len wraps to small values
+                let mut c = f_varint(1, 8);
+                c.extend(f_len_hdr(number, len.wrapping_sub(tail as u64)));
+                emit(out, "lenhdr-off", &c);
+            }
+        }
+    }
+    // self-referential lengths: position + len == 2^64 + k for small k
+    for lead in 0..6usize {
+        for k in 0..14u64 {
+            let mut b = vec![];
+            for _ in 0..lead {
+                b.extend(f_varint(1, 1));
+            }
+            let pos_after = b.len() as u64 + 1 + 10;
+            b.extend(f_len_hdr(15, (k as u64).wrapping_sub(pos_after)));
+            emit(out, "selfref", &b);
+        }
+    }
+    // over-long varints at the tag / value / length position
+    for cont in 8..13usize {
+        for last in [0u8, 1, 2, 0x7f, 0x80] {
+            let mut v = vec![0x80u8; cont];
+            v.push(last);
+            emit(out, "longvarint-tag", &v);
+            let mut b = vec![0x08];
+            b.extend(&v);
+            emit(out, "longvarint-val", &b);
+            let mut b = vec![0x7a];
+            b.extend(&v);
+            b.push(0);
+            emit(out, "longvarint-len", &b);
+            let mut v = vec![0xffu8; cont];
+            v.push(last);
+            emit(out, "longvarint-ff", &v);
+            // inside a packed field and an embedded message
+            emit(out, "longvarint-packed", &wrap_path(&[7, 5], f_len(7, &v)));
+        }
+    }
+    // every wire type on every field number 0..22 of every message type
+    for (ty, path) in PATHS.iter().enumerate() {
+        for number in 0..23u64 {
+            for wire in 0..8u64 {
+                let mut f = tag(number, wire);
+                match wire {
+                    0 => f.extend(varint(5)),
+                    1 => f.extend(7u64.to_le_bytes()),
+                    2 => {
+                        // payload valid both as a string and as a message / packed block
+                        f.extend(varint(2));
+                        f.extend([0x08, 0x01]);
+                    }
+                    5 => f.extend(7u32.to_le_bytes()),
+                    _ => {}
+                }
+                let _ = ty;
+                emit(out, "dispatch", &wrap_path(path, f));
+            }
+        }
+    }
+    // nesting around the depth limit
+    for c in [1usize, 10, 32, 33, 34, 35, 40] {
+        emit(out, "deep-graph", &deep_graph(c, &[]));
+        emit(out, "deep-graph", &deep_graph(c, &f_len(1, &f_len(1, b"x"))));
+    }
+    for c in [1usize, 20, 47, 48, 49, 50, 51, 60] {
+        emit(out, "deep-type", &deep_type(c));
+    }
+    if thorough {
+        emit(out, "deep-graph", &deep_graph(400, &[]));
+        emit(out, "deep-type", &deep_type(700));
+    }
+
+    // ---- 2. random structured messages, increasingly mutated
+    for i in 0..n {
+        let lie = match i % 4 {
+            0 => 0,
+            1 => 30,
+            2 => 120,
+            _ => 400,
+        };
+        let mut b = B { rng: &mut rng, lie };
+        let m = match b.rng.below(10) {
+            0 => {
+                let ty = b.rng.pick(&[T_ATTR, T_NODE, T_TENSOR, T_TYPE, T_GRAPH]);
+                let inner = b.message(ty, PATHS[ty].len());
+                wrap_path(PATHS[ty], inner)
+            }
+            _ => b.message(T_MODEL, 0),
+        };
+        let label = match lie {
+            0 => "struct-valid",
+            30 => "struct-mut1",
+            120 => "struct-mut2",
+            _ => "struct-mut3",
+        };
+        emit(out, label, &m);
+        if i % 7 == 0 && !m.is_empty() {
+            // byte-level mutation of a structured message
+            let mut mm = m.clone();
+            for _ in 0..1 + rng.below(3) {
+                let k = rng.below(mm.len() as u64) as usize;
+                match rng.below(4) {
+                    0 => mm[k] ^= 1 << rng.below(8),
+                    1 => mm[k] = rng.pick(&[0u8, 0x7f, 0x80, 0xff, 0x0a, 0x12, 0x3a]),
+                    2 => {
+                        mm.truncate(k);
+                        if mm.is_empty() {
+                            break;
+                        }
+                    }
+                    _ => mm.insert(k, rng.next() as u8),
+                }
+            }
+            emit(out, "bytemut", &mm);
+        }
+    }
+    // ---- 3. random bytes
+    for _ in 0..n / 5 {
+        let len = rng.below(24) as usize;
+        let b: Vec<u8> = (0..len)
+            .map(|_| match rng.below(4) {
+                0 => rng.pick(&[0x08u8, 0x0a, 0x12, 0x3a, 0x7a, 0x80, 0xff, 0x01, 0x00, 0x42]),
+                _ => rng.next() as u8,
+            })
+            .collect();
+        emit(out, "random", &b);
+    }
+}
